@@ -50,6 +50,7 @@ type Cfg struct {
 	StartedFile    string            `json:"startedFile"`
 	ChatterAfterMs int               `json:"chatterAfterMs"` // print lines to os.Stdout from a goroutine, starting this long after the handshake line
 	EarlyStderrMs  int               `json:"earlyStderrMs"`  // from process start: lines written to the process' stderr every 200 µs for this long (start-up logging)
+	PreTestSync    bool              `json:"preTestSync"`    // ... with ServeTestConfig.SyncStdio set
 	PreTestServe   bool              `json:"preTestServe"`   // serve once in test mode (and stop) before serving for real
 	UnsetEnv       []string          `json:"unsetEnv"`       // emulate an older plugin that does not know these variables
 	TmpDir         string            `json:"tmpDir"`         // private sandbox: becomes this process' TMPDIR (the host's own TMPDIR would otherwise win in the inherited environment)
@@ -225,7 +226,7 @@ func main() {
 		rch := make(chan *plugin.ReattachConfig, 1)
 		closeCh := make(chan struct{})
 		tc := *sc
-		tc.Test = &plugin.ServeTestConfig{Context: ctx, ReattachConfigCh: rch, CloseCh: closeCh}
+		tc.Test = &plugin.ServeTestConfig{Context: ctx, ReattachConfigCh: rch, CloseCh: closeCh, SyncStdio: cfg.PreTestSync}
 		go plugin.Serve(&tc)
 		select {
 		case <-rch:
